@@ -147,6 +147,10 @@ fn run_resume(sc: &Scenario, cx: &mut Cx) -> CaseResult {
     if cx.tier == Tier::Quick {
         points = scen::thin(&points, 60);
     }
+    let probe_thin = PROBE_THIN.with(|t| t.get());
+    if probe_thin > 0 {
+        points = scen::thin(&points, probe_thin);
+    }
     let only: Option<(Key, bool)> = cx
         .only_inner
         .as_ref()
@@ -266,11 +270,76 @@ fn run(case: &Case, cx: &mut Cx) -> CaseResult {
     }
 }
 
+/// Scale probes (see probes.rs): duplicate multi-MiB blocks within and across backups, and
+/// a resume over a basis band of 200 index hunks whose hunk boundaries are shifted.
+fn enumerate(_tier: Tier, idx: u32, of: u32, cx: &mut Cx) -> CaseResult {
+    if !crate::probes::mine(idx, of) {
+        return Ok(());
+    }
+    let (opts, tree) = crate::probes::big_blocks_tree();
+    let sub = cx.dir("big-blocks");
+    std::fs::create_dir_all(&sub).unwrap();
+    let mut cx2 = crate::engine::sub_cx(cx, sub.clone());
+    run_twice(opts, opts, &tree, &mut cx2).map_err(|mut f| {
+        f.signature = format!("{}/probe-big-blocks", f.signature);
+        f
+    })?;
+    // each distinct content written once: the two identical 5.5 MiB files share one block
+    let ra = format::scan(&sub.join("arch"));
+    let a = addrs_by_path(&ra, 0);
+    ensure!(
+        a.get("/dup-a") == a.get("/dup-b") && a.get("/dup-a").map(|v| v.len()) == Some(1),
+        "C14/probe-big-blocks/duplicate-content-not-shared",
+        "{:?} vs {:?}",
+        a.get("/dup-a"),
+        a.get("/dup-b")
+    );
+    crate::engine::force_remove(&sub);
+    cx.add_evals(1);
+    cx.inner_nontrivial += 1;
+
+    crate::engine::heartbeat();
+    let o = Opts { hunk: 2, block: 1 << 16, cap: 1 << 20 };
+    let sc = Scenario {
+        initial: tree::wide_tree(400, 1, 5, crate::probes::plain_meta()),
+        prefix: vec![crate::history::Op::Backup(o)],
+        edits: vec![crate::history::Edit::AddFile {
+            dir: 0xFFFF,
+            name: "a-early".into(),
+            pool: 7,
+            len: 77,
+            meta: crate::probes::plain_meta(),
+        }],
+        opts: o,
+    };
+    let sub = cx.dir("resume-200-hunks");
+    std::fs::create_dir_all(&sub).unwrap();
+    let mut cx2 = crate::engine::sub_cx(cx, sub.clone());
+    cx2.tier = Tier::Quick;
+    cx2.only_inner = None;
+    PROBE_THIN.with(|t| t.set(20));
+    let r = run_resume(&sc, &mut cx2);
+    PROBE_THIN.with(|t| t.set(0));
+    r.map_err(|mut f| {
+        f.signature = format!("{}/probe-resume-200-hunks", f.signature);
+        f
+    })?;
+    crate::engine::force_remove(&sub);
+    cx.add_evals(cx2.evals);
+    cx.inner_nontrivial += cx2.inner_nontrivial;
+    Ok(())
+}
+
+thread_local! {
+    /// When non-zero, run_resume thins its crash points to this many (used by the probe).
+    static PROBE_THIN: std::cell::Cell<usize> = const { std::cell::Cell::new(0) };
+}
+
 pub fn prop() -> Prop<Case> {
     Prop {
         id: "C14",
         level: "exploration",
-        rule: "three case kinds. Twice: (options1, options2, tree) backed up twice untouched: the logged storage trace of run 2 has no write under d/, written_blocks==0, independently decoded addresses per path identical; non-trivial = tree has a combined block and a multi-block file. Hist: history as C02 with every storage operation logged with the pre-state of its path: no write to a d/ path that exists with non-zero length; non-trivial = >=2 backups with deduplication. Resume: scenario (prefix<=3 ops, edits, options) x every crash point of the backup's trace (before each mutating op + torn variant for writes; quick tier thins to <=60 per scenario), then a resumed backup of the unchanged source: block paths successfully written by run 1 are not written by run 2, every entry the interrupted band recorded keeps its addresses in the resumed band, and every file unchanged (size, mtime) with respect to the stitched basis at the moment of the crash is recorded with the basis entry's addresses; non-trivial = crash point after >=1 block write (counted per (scenario, crash point), distinct by construction)",
+        rule: "three case kinds. Twice: (options1, options2, tree) backed up twice untouched: the logged storage trace of run 2 has no write under d/, written_blocks==0, independently decoded addresses per path identical; non-trivial = tree has a combined block and a multi-block file. Hist: history as C02 with every storage operation logged with the pre-state of its path: no write to a d/ path that exists with non-zero length; non-trivial = >=2 backups with deduplication. Resume: scenario (prefix<=3 ops, edits, options) x every crash point of the backup's trace (before each mutating op + torn variant for writes; quick tier thins to <=60 per scenario), then a resumed backup of the unchanged source: block paths successfully written by run 1 are not written by run 2, every entry the interrupted band recorded keeps its addresses in the resumed band, and every file unchanged (size, mtime) with respect to the stitched basis at the moment of the crash is recorded with the basis entry's addresses; non-trivial = crash point after >=1 block write (counted per (scenario, crash point), distinct by construction). Fixed scale probes per run: the twice-relation on files stored as single blocks of several MiB (two of them identical), and the resume relation at 20 crash points of a backup over a basis band of 200 two-entry hunks with one file added at the front",
         assumptions: &[
             "zero-length leftovers of a killed write may be completed (the documented exception)",
             "crash granularity = one transport operation",
@@ -278,7 +347,7 @@ pub fn prop() -> Prop<Case> {
         cases: |t| t.pick(1500, 60_000),
         strategy,
         run,
-        enumerate: None,
+        enumerate: Some(enumerate),
         exhaustive: |_| false,
         max_shrink_iters: 300,
     }
